@@ -93,16 +93,16 @@ THOROUGH_LOG = """| property | thorough tier, seed 1 (background runs on this ma
 | C04 | F: 320 000 cases, 194 627 distinct non-trivial, 386 s |
 | C05 | R7: 7 052 920 cases (6.4 M of them atheris executions in 16 campaigns), 2 438 009 distinct non-trivial, 2540 s under load (R4: 1153 s) |
 | C06 | F: 320 000 cases, 234 879 distinct non-trivial, 893 s |
-| C07 | R4: 1 155 889 cases, 746 573 distinct non-trivial, 201 s |
+| C07 | F: 1 155 889 cases, 747 689 distinct non-trivial, 255 s |
 | C08 | F: 480 000 histories, 318 321 distinct non-trivial, 1468 s |
 | C09 | F: 249 600 histories, 110 894 distinct non-trivial, 1812 s (long-session part then reduced from 600 to 80 examples per shard) |
 | C10 | F: 736 000 histories, 373 364 distinct non-trivial, 2102 s |
 | C11 | F: 160 000 joint histories, 38 297 distinct non-trivial, 520 s |
-| C12 | R4: 640 000 histories, 120 971 distinct non-trivial, 1203 s |
-| C13 | R4: 963 328 cases, 779 450 distinct non-trivial, 1328 s |
+| C12 | F: 640 000 histories, 108 342 distinct non-trivial, 1362 s |
+| C13 | F: 928 457 cases (34 871 more skipped by the time budget), 736 168 distinct non-trivial, 1550 s |
 | C14 | F: 800 000 sentences, 274 523 distinct non-trivial, 1376 s |
 | C15 | R7: 10 719 860 cases (8 M atheris executions), 7 209 205 distinct non-trivial, 2597 s under load |
-| C16 | R4: 481 608 cases, 433 208 distinct non-trivial, 1063 s |
+| C16 | F: 481 608 cases, 432 883 distinct non-trivial, 433 s |
 | C17 | earlier: 3 360 000 cases (2.4 M atheris executions), 826 182 distinct non-trivial, 685 s |
 | C18 | earlier: 662 089 families, 355 770 distinct non-trivial, 4378 s - found defect 19 (two buckets, one root cause), see section 3; re-run after the repair: exit 0 |
 | C19 | F: 241 352 cases, 171 643 distinct non-trivial, 400 s |"""
